@@ -156,9 +156,13 @@ UnitsCmp(ds, es, i, bin, at, acc) ==
   ELSE LET r == UnitCmp(ds[i], es[i], bin, at) IN
        UnitsCmp(ds, es, i + 1, bin, at, [viol |-> acc.viol \cup r.viol, floats |-> acc.floats \o r.floats])
 \* a whole response against its denotation
+\* an error the shim reported must reach the client as the ERR unit at the same position of the reply (C13)
+ErrLost(ds, es) == \E i \in 1..Len(es) : (es[i].k = "err" \/ (es[i].k = "rs" /\ es[i].term = "err"))
+                                         /\ (i > Len(ds) \/ ds[i].k # es[i].k \/ (es[i].k = "rs" /\ ds[i].term # "err"))
 ResponseCmp(ds, es, bin, at) ==
   LET r == UnitsCmp(ds, es, 1, bin, at, [viol |-> {}, floats |-> << >>]) IN
-  [viol |-> r.viol \cup (IF Len(ds) # Len(es) THEN {V("C03", at, "number of response units differs")} ELSE {}),
+  [viol |-> r.viol \cup (IF Len(ds) # Len(es) THEN {V("C03", at, "number of response units differs")} ELSE {})
+                   \cup (IF ErrLost(ds, es) THEN {V("C13", at, "an error reported by the shim did not reach the client as part of this reply")} ELSE {}),
    floats |-> r.floats]
 
 \* shape check for the rows of a response whose program did not complete (an emitted row must
